@@ -276,7 +276,7 @@ func (o *c11Obj) key() (k string, curSz int, bt int, v *c11V) {
 		t, cur, off, pad, bl := z.VerifBuffer(o.b)
 		h := sha1.Sum(o.b.Bytes())
 		curSz, bt = cur, int(t)
-		k = fmt.Sprintf("%d/%d/%d/%d/%d/%d/%x", t, cur, off, pad, bl, o.epoch, h[:12])
+		k = fmt.Sprintf("%d/%d/%d/%d/%d/%d/%x/%x", t, cur, off, pad, bl, o.epoch, h[:12], z.VerifBufferExtraFP(o.b))
 	})
 	if bad {
 		return "", 0, 0, c11Viol("C11/panic-in-bytes", "Bytes() panicked: %v", pv)
